@@ -49,6 +49,11 @@ impl Bits for Complex {
 
 pub type TagRec = (u64, String, TagValue);
 
+thread_local! {
+    /// Debugging aid (VERIF_PER_ADAPTER=1): count output-full situations per adapter.
+    static PER_ADAPTER: bool = std::env::var("VERIF_PER_ADAPTER").is_ok();
+}
+
 pub fn tagval_bits(v: &TagValue) -> String {
     match v {
         TagValue::Float(f) => format!("F{:08x}", f.to_bits()),
@@ -809,6 +814,9 @@ pub fn run_drip(
         }
         if out_free.iter().any(|&f| f == 0) {
             ctx.count("fault:output_full");
+            if PER_ADAPTER.with(|p| *p) {
+                ctx.count(&format!("zz_full:{kind}"));
+            }
             if hold_full && hold_left == 0 && src.chance(1, 2) {
                 hold_left = src.range(1, 6);
             }
@@ -1017,7 +1025,10 @@ pub fn run_drip(
     if nin == 0 {
         return complete;
     }
-    // Let the block drain whatever is left, with ample output space.
+    // Let the block drain whatever is left, with ample output space (a block
+    // may take one sample per call: the bound follows the backlog).
+    let backlog_total: usize = case.ins.iter().map(|p| p.backlog()).sum();
+    let drain_calls = 1000 + 2 * backlog_total;
     let mut guard = 0;
     loop {
         guard += 1;
@@ -1026,7 +1037,7 @@ pub fn run_drip(
         for o in case.outs.iter_mut() {
             o.drain(usize::MAX);
         }
-        if matches!(st.verdict, Verdict::Panic(_) | Verdict::Err(_) | Verdict::Eof) || !st.activity || guard > 1000 {
+        if matches!(st.verdict, Verdict::Panic(_) | Verdict::Err(_) | Verdict::Eof) || !st.activity || guard > drain_calls {
             break;
         }
     }
@@ -1036,11 +1047,18 @@ pub fn run_drip(
     ctx.count("fault:peer_drop");
     let mut retired = false;
     let mut last = String::new();
-    for _ in 0..4 {
+    let mut idle_calls = 0;
+    let mut calls = 0;
+    // Four calls that move nothing; calls that still move data do not count.
+    while idle_calls < 4 && calls < drain_calls {
+        calls += 1;
         let st = step(case, solo, true);
         stats.work_calls += 1;
         for o in case.outs.iter_mut() {
             o.drain(usize::MAX);
+        }
+        if !st.activity {
+            idle_calls += 1;
         }
         last = format!("{:?} eof()={:?}", st.verdict, st.block_eof);
         ctx.ev(|| format!("after close: {last}"));
@@ -1070,7 +1088,7 @@ pub fn run_drip(
         }
     }
     if !retired {
-        find!("C09", "not-retired", "inputs closed and drained, but 4 further calls gave no EOF, no true wait on an ended input and eof()==false (last: {last})");
+        find!("C09", "not-retired", "inputs closed and drained, but 4 further calls that moved nothing gave no EOF, no true wait on an ended input and eof()==false (last: {last})");
     } else {
         ctx.count("retired_after_close");
     }
